@@ -94,7 +94,7 @@ def gen_deck(rng, n_like=None, imp_decrease=False, allow_void_mat=False):
     slots = list(range(25))
     slots.remove(ORIGIN_SLOT)
     rng.shuffle(slots)
-    imp_mode = rng.choice(['card', 'card', 'data'])
+    imp_mode = 'card' if imp_decrease else rng.choice(['card', 'card', 'data'])
     info = {}                 # cell id -> {'root_centre', 'kind'}
     level0 = []
 
@@ -195,14 +195,14 @@ def gen_deck(rng, n_like=None, imp_decrease=False, allow_void_mat=False):
         if rng.random() < 0.85:
             keys.append('trcl')
         if rbase.get('fill') is None:
-            if rng.random() < 0.5:
+            if rng.random() < (0.85 if allow_void_mat else 0.5):
                 keys.append('mat')
             if rng.random() < 0.35 and (rbase['mat'] or 'mat' in keys):
                 keys.append('rho')
         else:
             if rng.random() < 0.6:
                 keys.append('fill')
-        if rng.random() < 0.25:
+        if rng.random() < (0.7 if imp_decrease else 0.25):
             keys.append('imp')
         if rng.random() < 0.08:
             keys.append('u')
@@ -215,9 +215,9 @@ def gen_deck(rng, n_like=None, imp_decrease=False, allow_void_mat=False):
                 but['trcl'] = placement(rng, root['centre'], target, trs)
             elif key == 'mat':
                 choices = [1, 2, 3, 4, 5]
-                if allow_void_mat:
-                    choices.append(0)
                 but['mat'] = rng.choice(choices)
+                if allow_void_mat and rng.random() < 0.75:
+                    but['mat'] = 0
                 if rbase['mat'] == 0 and but['mat'] != 0:
                     but['rho'] = rng.choice(RHOS)
             elif key == 'rho':
@@ -353,6 +353,20 @@ def imp_decreasing_cells(deck):
     return out
 
 
+def void_mat_cells(deck):
+    '''LIKE cells made void by BUT MAT=0 while a density is inherited (the
+    like_but_mat_void shape).'''
+    by_id = {c['id']: c for c in deck['cells']}
+    out = []
+    for c in deck['cells']:
+        if c.get('like') is None:
+            continue
+        r = resolve(by_id, c['id'])
+        if r['mat'] == 0 and r.get('rho') is not None:
+            out.append(c['id'])
+    return out
+
+
 def expand(deck, importance='override'):
     '''The deck with every LIKE card replaced by its explicit expansion.
     importance='max' writes, for the imp-decreasing cells only, the maximum
@@ -366,6 +380,8 @@ def expand(deck, importance='override'):
             cells.append(c)
             continue
         r = copy.deepcopy(resolve(by_id, c['id']))
+        if r['mat'] == 0:
+            r['rho'] = None
         if importance == 'max':
             want = card_importance(by_id, c['id'])
             got = chain_max_importance(by_id, c['id'])
